@@ -1,5 +1,91 @@
-(* C10 - statements only. (grows) *)
-From Sbdf Require Import Base BaseFacts.
-Theorem C10_names_compare_as_c_strings : forall s, cstr (cstr s) = cstr s.
-Proof. exact cstr_idem. Qed.
-Print Assumptions C10_names_compare_as_c_strings.
+(* C10 — metadata collections behave as an insertion-ordered map with a one-way freeze.
+   The model (Md.v) is the list algorithms of metadata.c; these are the laws of an insertion-ordered
+   map that they satisfy.  Statements only; proofs in MdFacts.v. *)
+From Sbdf Require Import Md Tm MdFacts VaFacts.
+
+(* names are unique and values are singletons whose default has the same type: an invariant of
+   every collection reachable by additions *)
+Theorem C10_invariant_add : forall name v d m m', md_inv m -> md_add name v d m = Ok m' -> md_inv m' /\ mmod m' = true.
+Proof. exact md_add_preserves_inv. Qed.
+Print Assumptions C10_invariant_add.
+
+Theorem C10_invariant_init : md_inv md_create.
+Proof. exact md_inv_create. Qed.
+Print Assumptions C10_invariant_init.
+
+(* add: appended at the end when the name is new, refused when it exists *)
+Theorem C10_add : forall name v d m, mmod m = true -> add_args_ok v d ->
+  (md_find name m = None ->
+     md_add name v d m = Ok {| ments := ments m ++ [{| ename := cstr name; evalue := Some v; edflt := d |}]; mmod := true |}) /\
+  (md_find name m <> None -> md_add name v d m = Err SBDF_ERROR_METADATA_ALREADY_EXISTS).
+Proof. exact md_add_spec. Qed.
+Print Assumptions C10_add.
+
+Theorem C10_add_refusals : forall name v d0 m, mmod m = true ->
+  (oty v <> oty d0 -> md_add name v (Some d0) m = Err SBDF_ERROR_VALUETYPES_MUST_BE_EQUAL) /\
+  (ocount v <> 1 -> md_add name v None m = Err SBDF_ERROR_ARRAY_LENGTH_MUST_BE_1).
+Proof. intros name v d0 m Hm. split; [now apply md_add_type_mismatch|now apply md_add_not_singleton]. Qed.
+Print Assumptions C10_add_refusals.
+
+(* lookups return an equal copy; absent names are reported *)
+Theorem C10_get_after_add : forall name v d m m', md_inv m -> md_add name v d m = Ok m' -> md_get name m' = Ok v.
+Proof. exact md_get_after_add. Qed.
+Print Assumptions C10_get_after_add.
+
+Theorem C10_get_absent : forall name m, md_find name m = None ->
+  md_get name m = Err SBDF_ERROR_METADATA_NOT_FOUND /\ md_exists name m = 0.
+Proof. exact md_get_absent. Qed.
+Print Assumptions C10_get_absent.
+
+(* remove: the name is gone, every other name is untouched, order is kept, and removal is idempotent *)
+Theorem C10_remove : forall name m, mmod m = true -> md_inv m ->
+  exists m', md_remove name m = Ok m' /\ md_inv m' /\ mmod m' = true /\ md_find name m' = None /\
+             (forall other, name_eqb name other = false -> md_find other m' = md_find other m) /\
+             md_remove name m' = Ok m'.
+Proof. exact md_remove_spec. Qed.
+Print Assumptions C10_remove.
+
+(* copy appends all source entries or, on any failure (name clash, frozen destination, an entry
+   that cannot be copied), none *)
+Theorem C10_copy_all_or_none : forall src dst,
+  let '(st, dst') := md_copy src dst in
+  dst' = dst \/ (st = SBDF_OK /\ exists new, ments dst' = ments dst ++ new /\ length new = length (ments src) /\ mmod dst' = mmod dst).
+Proof. exact md_copy_all_or_none. Qed.
+Print Assumptions C10_copy_all_or_none.
+
+Theorem C10_copy_clash : forall src dst, mmod dst = true ->
+  existsb (fun e => existsb (fun d => name_eqb (ename e) (ename d)) (ments dst)) (ments src) = true ->
+  md_copy src dst = (SBDF_ERROR_METADATA_ALREADY_EXISTS, dst).
+Proof. exact md_copy_clash. Qed.
+Print Assumptions C10_copy_clash.
+
+(* after freezing, every mutator fails with the read-only status and changes nothing (a failed
+   call returns no new collection), and nothing unfreezes *)
+Theorem C10_frozen : forall name v d sv sd iv id_ src m, mmod m = false ->
+  md_add name v d m = Err SBDF_ERROR_METADATA_READONLY /\
+  md_add_str name sv sd m = Err SBDF_ERROR_METADATA_READONLY /\
+  md_add_int name iv id_ m = Err SBDF_ERROR_METADATA_READONLY /\
+  md_remove name m = Err SBDF_ERROR_METADATA_READONLY /\
+  md_copy src m = (SBDF_ERROR_METADATA_READONLY, m).
+Proof.
+  intros. repeat split; [now apply md_add_frozen|now apply md_add_str_frozen|now apply md_add_int_frozen|now apply md_remove_frozen|now apply md_copy_frozen].
+Qed.
+Print Assumptions C10_frozen.
+
+Theorem C10_freeze : forall m, mmod (md_set_immutable m) = false /\ ments (md_set_immutable m) = ments m.
+Proof. exact md_freeze_is_one_way. Qed.
+Print Assumptions C10_freeze.
+
+(* metadata held by a table-metadata object, whether built or returned by the reader, is frozen *)
+Theorem C10_table_metadata_frozen :
+  (forall table_md t, tm_create table_md = Ok t -> mmod (tmeta t) = false /\ tcols t = []) /\
+  (forall col t t', mmod (tmeta t) = false -> Forall (fun c => mmod c = false) (tcols t) -> tm_add col t = Ok t' ->
+     mmod (tmeta t') = false /\ Forall (fun c => mmod c = false) (tcols t') /\ length (tcols t') = S (length (tcols t))) /\
+  (forall swp cap s t s', tm_read swp cap s = Ok (t, s') -> mmod (tmeta t) = false /\ Forall (fun c => mmod c = false) (tcols t)).
+Proof. split; [exact tm_create_frozen|split; [exact tm_add_frozen|exact tm_read_frozen]]. Qed.
+Print Assumptions C10_table_metadata_frozen.
+
+Example C10_nonvacuous :
+  let v := {| oty := SBDF_INTTYPEID; oelems := [[1; 0; 0; 0]] |} in
+  add_args_ok v None /\ exists m, md_add [97] v None md_create = Ok m /\ md_cnt m = 1 /\ md_get [97] m = Ok v.
+Proof. split; [repeat split; try (right; reflexivity)|eexists; repeat split; reflexivity]. Qed.
